@@ -126,40 +126,79 @@ AndMoves(s) ==
        : g \in {g \in NodesOfKind(i, "and") : Ready(g)} }
 
 (* Inclusive gateway.  Tokens waiting at the gateway are grouped by the fork *)
-(* activation on top of their tag stack.  A group may pass when no other     *)
-(* token descending from that activation is still elsewhere in the net       *)
-(* (never earlier); it passes as ONE token (exactly once per activation).    *)
+(* activation on top of their tag stack; a group passes as ONE token         *)
+(* (exactly once per activation).  The property gives a window:              *)
+(*   early bound - every token of the activation that can still REACH the    *)
+(*                 gateway has arrived (never earlier);                      *)
+(*   late bound  - every token of the activation has arrived or ended        *)
+(*                 elsewhere (no later).                                     *)
+(* Between the bounds the gateway MAY pass (OrMay), from the late bound on   *)
+(* it MUST (OrMust, part of the eager closure).                              *)
 NoTag == <<"", 0>>
 TopTag(t) == IF t.tag = <<>> THEN NoTag ELSE t.tag[Len(t.tag)]
 
-OrMoves(s) ==
-  LET i == s.p
-      W(g) == {t \in Toks(s) : t.at = g /\ t.st = "join"}
-      Members(g, k, inst) == {t \in W(g) : TopTag(t) = k /\ t.inst = inst}
-      Ready(g, k, inst) ==
-        \/ k = NoTag
-        \/ Len(Node(i, g).in) <= 1          \* a pure fork has nothing to wait for
-        \/ \A u \in Toks(s) \ Members(g, k, inst) : k \notin SeqRange(u.tag)
-      Cands == UNION { {<<g, TopTag(t), t.inst>> : t \in W(g)} : g \in NodesOfKind(i, "or") }
-  IN { LET g    == c[1]
-           k    == c[2]
-           inst == c[3]
-           n    == Node(i, g)
-           any  == CHOOSE t \in Members(g, k, inst) : TRUE
-           \* an untagged token passes on its own; a tagged group passes as one
-           rem  == IF k = NoTag THEN DelTok(s.tok, any)
-                   ELSE [t \in DOMAIN s.tok \ Members(g, k, inst) |-> s.tok[t]]
-           base == IF k # NoTag /\ Len(n.in) > 1 THEN SubSeq(any.tag, 1, Len(any.tag) - 1) ELSE any.tag
-           fl   == OrChoice(i, n, s.vars)
-           act  == s.nact + 1
-           ntag == IF Len(n.out) > 1 THEN Append(base, <<g, act>>) ELSE base
-           new  == {Tok(fl[j], "flow", 0, "", ntag, inst) : j \in DOMAIN fl}
-       IN  IF fl # <<>>
-           THEN Mv(Tau, [s EXCEPT !.nact = act, !.tok = AddToks(rem, new)])
-           ELSE Mv(Lab("error", g, 0),
-                   [s EXCEPT !.errs[g] = @ + 1,
-                             !.tok = AddToks(rem, {Tok(g, "err", 0, "", base, inst)})])
-       : c \in {c \in Cands : Ready(c[1], c[2], c[3])} }
+SuccNodes(i, n) == {Flow(i, f).dst : f \in SeqRange(Node(i, n).out)}
+                     \cup {b \in NodeIdsOf(i) : Node(i, b).kind = "boundary" /\ Node(i, b).attached = n}
+RECURSIVE ReachFrom(_, _, _)
+ReachFrom(i, frontier, seen) ==
+  IF frontier = {} THEN seen
+  ELSE LET nxt == (UNION {SuccNodes(i, n) : n \in frontier}) \ seen
+       IN  ReachFrom(i, nxt, seen \cup nxt)
+\* nodes reachable from n in one or more steps (constant, evaluated once)
+ReachMap == [i \in 1..NProg |-> [n \in NodeIdsOf(i) |-> ReachFrom(i, {n}, {})]]
+
+\* the node of scope sc that (transitively) contains node n, or "" if none
+RECURSIVE LiftTo(_, _, _)
+LiftTo(i, n, sc) ==
+  IF Node(i, n).scope = sc THEN n
+  ELSE IF Node(i, n).scope = "" THEN ""
+  ELSE LiftTo(i, Node(i, n).scope, sc)
+
+\* can token u still arrive at gateway g ?
+CanReach(i, u, g) ==
+  LET onFlow == u.st = "flow"
+      pos    == IF onFlow THEN Flow(i, u.at).dst ELSE u.at
+      lp     == LiftTo(i, pos, Node(i, g).scope)
+  IN  /\ lp # ""
+      /\ \/ g \in ReachMap[i][lp]
+         \/ (onFlow /\ lp = g /\ pos = g)
+
+OrW(s, g) == {t \in Toks(s) : t.at = g /\ t.st = "join"}
+OrMembers(s, g, k, inst) == {t \in OrW(s, g) : TopTag(t) = k /\ t.inst = inst}
+OrLate(s, g, k, inst) ==
+  \/ k = NoTag
+  \/ \A u \in Toks(s) \ OrMembers(s, g, k, inst) : k \notin SeqRange(u.tag)
+OrEarly(s, g, k, inst) ==
+  \/ k = NoTag
+  \/ \A u \in Toks(s) \ OrMembers(s, g, k, inst) :
+        k \in SeqRange(u.tag) => ~CanReach(s.p, u, g)
+OrCands(s) == UNION { {<<g, TopTag(t), t.inst>> : t \in OrW(s, g)} : g \in NodesOfKind(s.p, "or") }
+
+OrFire(s, c) ==
+  LET i    == s.p
+      g    == c[1]
+      k    == c[2]
+      inst == c[3]
+      n    == Node(i, g)
+      mem  == OrMembers(s, g, k, inst)
+      any  == CHOOSE t \in mem : TRUE
+      \* an untagged token passes on its own; a tagged group passes as one
+      rem  == IF k = NoTag THEN DelTok(s.tok, any)
+              ELSE [t \in DOMAIN s.tok \ mem |-> s.tok[t]]
+      base == IF k # NoTag /\ Len(n.in) > 1 THEN SubSeq(any.tag, 1, Len(any.tag) - 1) ELSE any.tag
+      fl   == OrChoice(i, n, s.vars)
+      act  == s.nact + 1
+      ntag == IF Len(n.out) > 1 THEN Append(base, <<g, act>>) ELSE base
+      new  == {Tok(fl[j], "flow", 0, "", ntag, inst) : j \in DOMAIN fl}
+  IN  IF fl # <<>>
+      THEN Mv(Tau, [s EXCEPT !.nact = act, !.tok = AddToks(rem, new)])
+      ELSE Mv(Lab("error", g, 0),
+              [s EXCEPT !.errs[g] = @ + 1,
+                        !.tok = AddToks(rem, {Tok(g, "err", 0, "", base, inst)})])
+
+OrMoves(s)    == {OrFire(s, c) : c \in {c \in OrCands(s) : OrLate(s, c[1], c[2], c[3])}}
+OrMayMoves(s) == {OrFire(s, c) : c \in {c \in OrCands(s) : /\ ~OrLate(s, c[1], c[2], c[3])
+                                                            /\ OrEarly(s, c[1], c[2], c[3])}}
 
 (* Sub-process: the parked parent token continues once no token of the       *)
 (* activation remains.                                                       *)
@@ -183,9 +222,29 @@ RECURSIVE CloseTau(_)
 CloseTau(s) == LET ms == TauMoves(s)
                IN  IF ms = {} THEN s ELSE CloseTau((CHOOSE m \in ms : TRUE).s)
 
+MayMoves(s) == OrMayMoves(s)
+
 RECURSIVE CloseAll(_)
 CloseAll(s) == LET ms == Moves(s)
                IN  IF ms = {} THEN s ELSE CloseAll((CHOOSE m \in ms : TRUE).s)
+
+\* closure used when the environment has nothing left to do: a move that is
+\* merely allowed has to happen eventually if nothing else can
+RECURSIVE CloseQuiet(_)
+CloseQuiet(s) ==
+  LET s1 == CloseAll(s) IN
+  IF {t \in Toks(s1) : t.st = "req"} = {} /\ MayMoves(s1) # {}
+  THEN CloseQuiet((CHOOSE m \in MayMoves(s1) : TRUE).s)
+  ELSE s1
+
+\* all states reachable by taking allowed-but-not-forced moves (each followed
+\* by the eager tau closure), including the state itself
+RECURSIVE ExpandFrom(_, _)
+ExpandFrom(frontier, seen) ==
+  IF frontier = {} THEN seen
+  ELSE LET nxt == {CloseTau(m.s) : m \in UNION {{mm \in MayMoves(x) : mm.lab.ev = "tau"} : x \in frontier}} \ seen
+       IN  ExpandFrom(nxt, seen \cup nxt)
+Expand(s) == ExpandFrom({s}, {s})
 
 -----------------------------------------------------------------------------
 (* Environment: answering a task request.  Only declared result names are    *)
